@@ -176,7 +176,7 @@ func (c *control) readDir() {
 		case '#':
 			params = append(params, len(c.args)-c.argPos)
 			hasParam = true
-		case 'v':
+		case 'v', 'V':
 			var p any
 			if 0 <= c.argPos {
 				p = c.nextArg()
@@ -192,7 +192,7 @@ func (c *control) readDir() {
 			c.pos += size
 			params = append(params, slip.Character(r))
 			hasParam = true
-		case '-', '0', '1', '2', '3', '4', '5', '6', '7', '8', '9':
+		case '-', '+', '0', '1', '2', '3', '4', '5', '6', '7', '8', '9':
 			c.pos--
 			p := c.readParam()
 			if n, err := strconv.ParseInt(string(p), 10, 64); err == nil {
@@ -481,7 +481,7 @@ func (c *control) scanDirBlock(buf []byte, pos int, dirName string, open, close 
 					return pos - 3
 				}
 				return pos - 2
-			case '-', '0', '1', '2', '3', '4', '5', '6', '7', '8', '9', ',', 'v', '#':
+			case '-', '+', '0', '1', '2', '3', '4', '5', '6', '7', '8', '9', ',', 'v', 'V', '#':
 				// prefix parameters, remain in tilde
 			case '\'':
 				// quoted character parameter, skip the character and stay in tilde
@@ -728,7 +728,7 @@ func (c *control) scanJustify(buf []byte, pos int) ([]*control, *control, int) {
 				}
 				segments = append(segments, &c2)
 				return segments, special, pos - 2
-			case '-', '0', '1', '2', '3', '4', '5', '6', '7', '8', '9', ',':
+			case '-', '+', '0', '1', '2', '3', '4', '5', '6', '7', '8', '9', ',', 'v', 'V', '#':
 				// remain in tilde
 			case '\'':
 				// Read character and stay in tilde.
@@ -1617,7 +1617,7 @@ func (c *control) scanCond(buf []byte, pos int) ([]string, string, int) {
 					strs = append(strs, string(buf[start:pos-2]))
 				}
 				return strs, def, pos - 2
-			case '-', '0', '1', '2', '3', '4', '5', '6', '7', '8', '9', ',', 'v', '#':
+			case '-', '+', '0', '1', '2', '3', '4', '5', '6', '7', '8', '9', ',', 'v', 'V', '#':
 				// prefix parameters, remain in tilde
 			case '\'':
 				// quoted character parameter, skip the character and stay in tilde
